@@ -20,16 +20,19 @@ def expr(rng, depth):
         return "(%s)" % expr(rng, depth - 1)
     if r < 0.72:
         # a compound assignment to a variable or to a property (an expression: it stands in parentheses)
-        target = rng.choice(["a", "b", "c.p", "d.q", "g(a).p", "(a + b).p", "'lit'.p"]) if rng.random() < 0.85 else "%s.p" % operand(rng, depth - 1, "r")
+        target = rng.choice(["a", "b", "c.p", "d.q", "g(a).p", "(a + b).p", "'lit'.p"]) if rng.random() < 0.85 else "%s.p" % (lambda t: "(%s)" % t if has_top_optional(t) else t)(operand(rng, depth - 1, "r"))
         return "(%s += %s)" % (target, expr(rng, depth - 1))
     if r < 0.86:
         # a method call with one argument; a sum as receiver needs parentheses
         recv = expr(rng, depth - 1)
-        if is_sum(recv):
+        if is_sum(recv) or has_top_optional(recv):
+            recv = "(%s)" % recv
+        opt = "?." if rng.random() < 0.3 else "."     # an optional method call: a chain of one optional link
+        if opt == "?." and not (recv.replace("_", "a").isalnum() or recv.endswith(")") or recv[0] in "'\"`"):
             recv = "(%s)" % recv
         if rng.random() < 0.4:
-            return "%s.%s()" % (recv, rng.choice(METHODS))
-        return "%s.%s(%s)" % (recv, rng.choice(METHODS), expr(rng, depth - 1))
+            return "%s%s%s()" % (recv, opt, rng.choice(METHODS))
+        return "%s%s%s(%s)" % (recv, opt, rng.choice(METHODS), expr(rng, depth - 1))
     if r < 0.93:
         # a template literal with one or two substitutions (a literal substitution leaves the whole template alone)
         subs = [expr(rng, depth - 1) for _ in range(rng.choice([1, 1, 2, 2, 2]))]
@@ -39,6 +42,28 @@ def expr(rng, depth):
         return "`%s`" % out
     callee = rng.choice(CALLEES) if rng.random() < 0.75 else "%s(%s)" % (rng.choice(CALLEES), expr(rng, depth - 2))
     return "%s(%s)" % (callee, expr(rng, depth - 1))
+
+
+def has_top_optional(e):
+    """`?.` outside every bracket and template: the expression is an optional chain (a longer chain would extend its short circuit)."""
+    d = 0
+    q = None
+    i = 0
+    while i < len(e):
+        ch = e[i]
+        if q:
+            if ch == q:
+                q = None
+        elif ch in "'\"`":
+            q = ch
+        elif ch in "([{":
+            d += 1
+        elif ch in ")]}":
+            d -= 1
+        elif ch == "?" and e[i:i + 2] == "?." and d == 0:
+            return True
+        i += 1
+    return False
 
 
 def is_sum(e):
